@@ -82,8 +82,12 @@ func runC08(c *vc.Ctx) error {
 			return caseSpec{Name: fmt.Sprintf("exhaustive-%d", idx), Ops: exh.seq(idx), Store: st}
 		})
 	}
+	// directed size-boundary family (sizeb.go), model-compared
+	sb := sizebSpecs(true)
+	cp.run(len(sb), func(i int) caseSpec { return sb[i] })
 	cp.finish()
 	ev := c.Ev
+	ev.Set("size_boundary_cases_executed", len(sb))
 	ev.Rule = "cases: (a) random command sequences of length 20-200 over tiny adversarial pools (1-3 families, 1-2 of the tables t,t1,tt, 1-3 of 7 keys incl. ':' and binary bytes, 2-4 of 10 members incl. empty and binary, duplicate arguments inside one command with probability 1/3), sequence i drawn from PRNG(seed,i), store = (mem|pebble x wait_compact|local_deletion) by i mod 4; (b) sequences of length 1..3 over a per-type alphabet on 2 keys x 2 members (exhaustive in the thorough tier on every store, a seeded sample in the quick tier). Every write goes through the real state machine as its own raft entry, every reply and, after every command, the visible state of the keys it names are compared with the reference model; at the end every key ever named and every key found in the engine. distinct_nontrivial = number of distinct command lists (timestamps ignored) that reached a non-empty key/collection AND in which a removal or overwrite command (del, getset, set, append, hdel, hclear, lpop, ltrim, srem, spop, zrem, zremrange*, zadd on existing ...) succeeded afterwards."
 	ev.Set("exhaustive_short", c.Thorough())
 	ev.Set("exhaustive_space_size", total)
